@@ -91,6 +91,7 @@ type Interp struct {
 	observed   []observation
 	funcsSeen  map[*ssa.Function]bool
 	acc        *accessLog
+	accPaused  bool
 	lastPos    string
 }
 
@@ -311,6 +312,9 @@ func (in *Interp) run(fr *frame) Value {
 				m := in.get(fr, x.Map).(*Map)
 				if m == nil {
 					panic(goPanic{"assignment to entry in nil map at " + in.pos(x)})
+				}
+				if in.acc != nil {
+					in.acc.note(in, m, true, x)
 				}
 				in.mapSet(m, in.get(fr, x.Key), in.get(fr, x.Value))
 			case *ssa.DebugRef:
@@ -698,6 +702,9 @@ func (in *Interp) eval(fr *frame, v ssa.Value) Value {
 			}
 			return s.b[idx]
 		case *Map:
+			if in.acc != nil && s != nil {
+				in.acc.note(in, s, false, x)
+			}
 			val, ok := in.mapGet(s, in.get(fr, x.Index))
 			if !ok {
 				val = zero(x.X.Type().Underlying().(*types.Map).Elem())
@@ -1055,6 +1062,17 @@ func (in *Interp) binop(x *ssa.BinOp, a, b Value) Value {
 			}
 		} else if tb.c == 0 {
 			panic(goPanic{"integer divide by zero at " + in.pos(x)})
+		}
+		// x % 2^k for a dividend known to be non-negative is its low k bits: keeps checksum
+		// arithmetic at 8 bits instead of 64
+		if tb.isC() && tb.c > 1 && tb.c&(tb.c-1) == 0 && tb.c <= 1<<32 {
+			if r, ok := in.ex.rangeOf(ta, 0); ok && r.lo >= 0 {
+				k := 0
+				for uint64(1)<<uint(k) < tb.c {
+					k++
+				}
+				return Zext(Trunc(ta, k), ta.w)
+			}
 		}
 		if sg {
 			return Bin("bvsrem", ta, tb)
